@@ -2,6 +2,7 @@ package checks
 
 import (
 	"bytes"
+	"encoding/binary"
 	"fmt"
 	"reflect"
 	"strings"
@@ -208,8 +209,12 @@ func c06Table(c *mc.Ctx) {
 			pk = append(pk, uint32(p))
 		}
 	}
-	nblocks := c.Choose(4)
+	nbIdx := c.Choose(9)
+	nblocks := []int{0, 1, 2, 3, 255, 256, 4096, 4097, 8193}[nbIdx]
 	last := 1 + c.Choose(3) // rows in the last block: 1, 128, 255
+	if nbIdx >= 4 && (ncols != 1 || last != 1) {
+		c.Skip() // long block lists: one column layout is enough
+	}
 	c.Shard()
 	rowsCount := 0
 	if nblocks > 0 {
@@ -218,8 +223,12 @@ func c06Table(c *mc.Ctx) {
 	tbl := objects.NewTable(cols, pk)
 	tbl.RowsCount = uint32(rowsCount)
 	for i := 0; i < nblocks; i++ {
-		tbl.Blocks = append(tbl.Blocks, bytes.Repeat([]byte{byte(i + 1)}, 16))
-		tbl.BlockIndices = append(tbl.BlockIndices, bytes.Repeat([]byte{byte(0x80 + i)}, 16))
+		bs := bytes.Repeat([]byte{byte(i + 1)}, 16)
+		is := bytes.Repeat([]byte{byte(0x80 + i)}, 16)
+		binary.BigEndian.PutUint32(bs[4:], uint32(i)) // distinct sums for long lists too
+		binary.BigEndian.PutUint32(is[4:], uint32(i))
+		tbl.Blocks = append(tbl.Blocks, bs)
+		tbl.BlockIndices = append(tbl.BlockIndices, is)
 	}
 	var cs []string
 	tooLong := false
@@ -647,7 +656,7 @@ func init() {
 	register(&mc.Check{
 		ID:    "C06",
 		Level: "exploration",
-		Rule: "commits: author name/message in {'',a,a\\nb,\\xff,65535,65536,70000 bytes} x email x 0..3 parents x time {zero,0,1,2^31,-1,9999999999,10^10} x zone {UTC,+05:30,-07:00,+14:00,+00:00:30}; commit time zones: every offset -14:00..+14:00 in one-minute steps (and +30 s) x 3 instants; tables: 0..3 column names from {'',a,bb,65535,65536 bytes} x every key x 0..3 blocks x last-block fill; " +
+		Rule: "commits: author name/message in {'',a,a\\nb,\\xff,65535,65536,70000 bytes} x email x 0..3 parents x time {zero,0,1,2^31,-1,9999999999,10^10} x zone {UTC,+05:30,-07:00,+14:00,+00:00:30}; commit time zones: every offset -14:00..+14:00 in one-minute steps (and +30 s) x 3 instants; tables: 0..3 column names from {'',a,bb,65535,65536 bytes} x every key x {0,1,2,3,255,256,4096,4097,8193} blocks x last-block fill; " +
 			"blocks: 1,2,3,254,255 rows x 1..3 columns x one special cell (quotes, newline, delimiter, non-UTF8, 65535/65536/70000 bytes) at every position x rows crossing 64 KiB x key; block index built both ways; table profiles with every subset of optional fields; string/uint lists of 0..3 elements; " +
 			"packfile header: every length 1..2^26 (thorough: every 32-bit length) for type 1 and 2^k+-1024 windows up to 2^63 for types 1..3. Each object is written, read back, compared, re-encoded (bytes must coincide), saved (key = prefix + hash of bytes, saving twice leaves one entry) and fetched; over-limit text must be refused by the writer with an error. " +
 			"non-trivial = a completed round trip or refusal; distinct by case description",
